@@ -417,7 +417,7 @@ theorem passLoop_relax (P : Params K) (items : List (Item K)) (lineW : K) (hwf :
                           fun a ha => ⟨Nat.lt_trans (hprev a ha).1 hxb, (hprev a ha).2⟩
                         obtain ⟨hyb, hzb⟩ := afterSums_le P items lineW hwf prev b hpb hleg
                         obtain ⟨hyx, hzx⟩ := afterSums_le P items lineW hwf prev x hpx hlegx
-                        apply keep_step P items lineW (some ti) b it rest lb0 n prev hwf.inf hwf.lw hIc.sums hn0 hat hnf hyb hzb
+                        apply keep_step P items lineW (some ti) b it rest lb0 n prev hwf.inf hwf.lw hwf.epsNonneg hIc.sums hn0 hat hnf hyb hzb
                           (hwf.snap prev b it hit (fun a ha => legalAt_lt (hprev a ha).2))
                         intro h1
                         obtain ⟨_, _, _, hmono⟩ := pre_mono items hwf.itemsOK b (x - b)
